@@ -3095,7 +3095,7 @@ def decode_ssh_certificate(data: bytes,
         else:
             raise KeyImportError('Unknown certificate algorithm: ' +
                                  alg.decode('ascii', errors='replace'))
-    except (PacketDecodeError, ValueError):
+    except (PacketDecodeError, ValueError, OverflowError):
         raise KeyImportError('Invalid OpenSSH certificate') from None
 
 
